@@ -99,6 +99,20 @@ EnvRename(f, g) ==
   /\ Log([op |-> "rename", p |-> f, q |-> g])
   /\ UNCHANGED <<hist, sealed, flat, last>>
 
+\* a whole directory moved (every entry below it moves with it); directories that hold a history stay where they are
+Moved(d, e, x) == e \o SubSeq(x, Len(d) + 1, Len(x))
+EnvRenameDir(d, e) ==
+  /\ "renamedir" \in Ops /\ d \in DOMAIN disk \cap Mutable /\ disk[d] = "DIR"
+  /\ e \in DirPaths /\ e \notin DOMAIN disk /\ ParentExists(e) /\ ~BelowEq(d, e)
+  /\ \A h \in DOMAIN hist : BelowEq(d, h) => hist[h] = <<>>
+  /\ \A x \in DOMAIN disk : BelowEq(d, x) => Moved(d, e, x) \in FilePaths \cup DirPaths
+  /\ LET stay == {x \in DOMAIN disk : ~BelowEq(d, x)}
+          mv   == {x \in DOMAIN disk : BelowEq(d, x)}
+     IN disk' = [q \in stay \cup {Moved(d, e, x) : x \in mv} |->
+                   IF q \in stay THEN disk[q] ELSE disk[CHOOSE x \in mv : Moved(d, e, x) = q]]
+  /\ Log([op |-> "rename", p |-> d, q |-> e])
+  /\ UNCHANGED <<hist, sealed, flat, last>>
+
 (***************************************************************************)
 (* Commands.  The observation of a command is what Layer M predicts.       *)
 (***************************************************************************)
@@ -236,6 +250,7 @@ Next ==
         \/ \E p \in FilePaths \cup DirPaths : EnvDelete(p)
         \/ \E d \in DirPaths : EnvMkdir(d) \/ EnvDeleteTree(d)
         \/ \E f, g \in FilePaths : EnvRename(f, g)
+        \/ \E d, e \in DirPaths : EnvRenameDir(d, e)
         \/ \E R \in CmdRoots, F \in FmtChoices, P \in PatChoices, nodh, dr \in BOOLEAN : Create(R, F, nodh, dr, P)
         \/ \E R \in CmdRoots, F \in FmtChoices, S \in SFChoices : CreateSF(R, F, S)
         \/ \E R \in CmdRoots, P \in PatChoices : Verify(R, P) \/ Diff(R, P)
